@@ -216,6 +216,9 @@ func (w *CliWorld) sendSettings(kv [][2]uint32) {
 		w.allowedTable = v.table
 		w.dec.SetAllowedMaxDynamicTableSize(uint32(v.table))
 	}
+	if v.hasTable {
+		w.tblWatch.sent(v.table)
+	}
 	w.setVals = append(w.setVals, v)
 	w.settingsSent++
 	w.ctl(w.fw.Settings(st...))
@@ -386,6 +389,19 @@ func (w *CliWorld) srvReceive() {
 		w.preface -= n
 		b = b[n:]
 		if w.preface == 0 {
+			switch w.plan.BadPreface {
+			case "ping-first":
+				w.ctl(w.fw.Ping(false, [8]byte{'p', 'r', 'e', 'f', 'a', 'c', 'e', '!'}))
+			case "goaway-first":
+				w.ctl(w.fw.GoAway(0, 1, nil))
+			case "data-first":
+				w.ctl(w.fw.Data(1, true, []byte("hello"), -1))
+			case "garbage":
+				w.ctl([]byte("HTTP/1.1 400 Bad Request\r\nConnection: close\r\n\r\n"))
+			}
+			if w.plan.BadPreface != "" {
+				w.Probes["bad-preface"]++
+			}
 			// the server's connection preface: SETTINGS (+ boost)
 			w.sendSettings(w.firstSettings())
 			if w.plan.Srv.ConnWindowBoost > 0 {
@@ -466,6 +482,9 @@ func (w *CliWorld) onSrvFrame(f *Frame) {
 	case FPing:
 		if f.Ack {
 			w.PingAcks++
+			if len(f.Ping) > 0 && f.Ping[0] == 's' {
+				w.Probes["server-ping-acked"]++
+			}
 		} else {
 			w.Pings++
 			if !w.plan.NoPingAck {
@@ -515,8 +534,10 @@ func (w *CliWorld) onSrvFrame(f *Frame) {
 			}
 			if err != nil {
 				ss.DecodeErr = err.Error()
+				w.sim.Logf("request block on stream %d does not decode (%v): watch cur=%d pending=%d allowed=%d; block %x", f.Stream, err, w.tblWatch.cur, w.tblWatch.pending, w.allowedTable, ss.blockBuf[:min(len(ss.blockBuf), 120)])
 			} else {
 				w.tblWatch.block(ss.blockBuf)
+				w.sim.Logf("request block on stream %d: %d octets, starts %x; watch cur=%d", f.Stream, len(ss.blockBuf), ss.blockBuf[:min(len(ss.blockBuf), 24)], w.tblWatch.cur)
 			}
 			ss.HdrBlocks++
 			ss.HeadersAt = w.sim.Steps
